@@ -93,6 +93,17 @@ theorem worker_enabled {s : State} {i : Nat} {p : PC} (h : s.pcs[i]? = some p)
   | exiting => exact ⟨.exit i, mem_internal_worker hlt (by simp [workerEvents]), rfl, by simp [step, h]⟩
   | gone => simp [PC.cls] at hb
 
+/-- a worker running a task: the return of the task is a pool-internal event -/
+theorem run_enabled {s : State} (hc : 0 < cntOf s.pcs .run) :
+    ∃ e ∈ internalEvents s, (step repaired s e).isSome := by
+  obtain ⟨i, p, hi, hcls⟩ := exists_of_cntOf_pos hc
+  have hlt := lt_of_getElem? hi
+  cases p <;> simp [PC.cls] at hcls
+  · rename_i b; cases b <;> simp at hcls
+  · rename_i t
+    exact ⟨.finish i, mem_internal_worker hlt (by simp [workerEvents]), by simp [step, hi]⟩
+  · rename_i b; cases b <;> simp at hcls
+
 theorem class_enabled {s : State} (c : Cls) (hc : 0 < cntOf s.pcs c)
     (hb : c ≠ .waiting ∧ c ≠ .gone ∧ c ≠ .run) (hl : lockFree s = true ∨ (c ≠ .idleReg ∧ c ≠ .woken)) :
     ∃ e ∈ internalEvents s, isFinish e = false ∧ (step repaired s e).isSome := by
